@@ -28,6 +28,63 @@ mod sched;
 use common::{Ctx, Tier};
 use std::time::Duration;
 
+/// Allocation watcher. An allocation failure aborts the process and cannot be caught, so a monitor
+/// process that dies of one normally yields "inconclusive" (it may be the machine). But the
+/// workloads are bounded (no input above a few MiB, serialisation capped at 64 MiB, the largest
+/// harness-made sink 512 MiB), so a request of 2 GiB or more that comes from INSIDE the library is
+/// a defect of the library (a garbage size), whether or not the machine could serve it. Every such
+/// request is noted on stderr with the first library frame of its backtrace; `./check` uses the
+/// note to classify an allocation-failure crash (DESIGN 6.6).
+#[cfg(not(miri))]
+mod allocwatch {
+    use std::alloc::{GlobalAlloc, Layout, System};
+    use std::cell::Cell;
+    pub const HUGE: usize = 2 << 30;
+    thread_local!(static BUSY: Cell<bool> = const { Cell::new(false) });
+    pub struct Watch;
+    fn note(size: usize) {
+        if BUSY.with(|b| b.replace(true)) {
+            return;
+        }
+        let bt = std::backtrace::Backtrace::force_capture().to_string();
+        let mut frames = bt.lines().map(str::trim).filter(|l| !l.starts_with("at "));
+        let lib = frames.find(|l| l.contains("flacenc::")).map(|l| l.splitn(2, ": ").nth(1).unwrap_or(l).to_string());
+        let by_harness_first = bt.lines().map(str::trim).filter(|l| !l.starts_with("at ")).find(|l| l.contains("flacenc::") || l.contains("fvmon::")).map_or(false, |l| l.contains("fvmon::"));
+        eprintln!(
+            "HUGE-ALLOC bytes={size} requested_by={} first_library_frame={}",
+            if lib.is_some() && !by_harness_first { "library" } else { "harness" },
+            lib.unwrap_or_else(|| "-".into())
+        );
+        BUSY.with(|b| b.set(false));
+    }
+    unsafe impl GlobalAlloc for Watch {
+        unsafe fn alloc(&self, l: Layout) -> *mut u8 {
+            if l.size() >= HUGE {
+                note(l.size());
+            }
+            System.alloc(l)
+        }
+        unsafe fn alloc_zeroed(&self, l: Layout) -> *mut u8 {
+            if l.size() >= HUGE {
+                note(l.size());
+            }
+            System.alloc_zeroed(l)
+        }
+        unsafe fn dealloc(&self, p: *mut u8, l: Layout) {
+            System.dealloc(p, l)
+        }
+        unsafe fn realloc(&self, p: *mut u8, l: Layout, new_size: usize) -> *mut u8 {
+            if new_size >= HUGE {
+                note(new_size);
+            }
+            System.realloc(p, l, new_size)
+        }
+    }
+}
+#[cfg(not(miri))]
+#[global_allocator]
+static ALLOC: allocwatch::Watch = allocwatch::Watch;
+
 fn seed_from_env() -> u64 {
     std::env::var("VERIF_SEED").ok().and_then(|s| s.trim().parse::<u64>().ok()).unwrap_or(1)
 }
